@@ -6,7 +6,7 @@ import core  # noqa: E402
 
 if __name__ == "__main__":
     sys.exit(core.main(
-        "C02", own_codes=[3],
+        "C02", own_codes=[3, 7],
         gen_params={"quick": 500, "thorough": 12000, "len_quick": 16, "len_thorough": 32,
                     "gen": {"ctx_p": 0.05, "weights": {"RemoveRxn": 8, "RemoveMet": 8, "AddSt": 12, "SubSt": 8}}},
         rule="random histories over the op kernel of coq/theories/Core/Model.v weighted towards structural edits "
